@@ -97,4 +97,76 @@ theorem sdoRead_foreign_reply {σ : Type} (w : World σ) (cfg : Cfg) (fuel bufLe
   rw [mwr_single w cfg _ _ _ { ctr := nextCounter s.ctr, dev := s.dev, outq := s.outq, reqs := s.reqs, reads := s.reads }
     d' _ hm hq hresp, triage_foreign_expedited cfg c rIndex rSub index access.subIndex complete obj h1 h4 hi hr hne]
 
+/-! ### Emergencies -/
+
+/-- A pending emergency message is the first thing the server puts into its OUT mailbox when the next SDO request
+    arrives. -/
+theorem serve_emergency_head (srv : Server) (req : List Nat) (code reg : Nat) (data : List Nat)
+    (es : List (Nat × Nat × List Nat)) (hl : ¬ req.length < 12)
+    (hreq : (req.getD 5 0 % 16 != 3 || req.getD 7 0 / 16 != 2) = false)
+    (he : srv.emergencies = (code, reg, data) :: es) :
+    ∃ d' rest, serve srv req = (d', emergencyMessage (nextCtr srv.counter) code reg data :: rest) := by
+  unfold serve
+  rw [if_neg hl, hreq]
+  simp only [Bool.false_eq_true, if_false, he, emitEmergencies, List.cons_append]
+  exact ⟨_, _, rfl⟩
+
+theorem upload_request_wellformed (wmbx ctr index : Nat) (access : SubIndex) (hw : 12 ≤ wmbx) :
+    ¬ (image wmbx (uploadRequest ctr index access)).length < 12 ∧
+    (((image wmbx (uploadRequest ctr index access)).getD 5 0 % 16 != 3 ||
+      (image wmbx (uploadRequest ctr index access)).getD 7 0 / 16 != 2) = false) := by
+  rw [uploadRequest_image _ _ _ _ hw]
+  refine ⟨by simp, ?_⟩
+  have : (3 + 16 * (ctr % 8)) % 16 = 3 := by omega
+  simp [this]
+
+theorem download_request_wellformed (wmbx ctr index : Nat) (access : SubIndex) (value : List Nat) (hw : 16 ≤ wmbx)
+    (h4 : value.length ≤ 4) :
+    ¬ (image wmbx (downloadRequest ctr index access (value ++ zeros (4 - value.length)) value.length)).length < 12 ∧
+    (((image wmbx (downloadRequest ctr index access (value ++ zeros (4 - value.length)) value.length)).getD 5 0 % 16 != 3 ||
+      (image wmbx (downloadRequest ctr index access (value ++ zeros (4 - value.length)) value.length)).getD 7 0 / 16 != 2) =
+        false) := by
+  rw [downloadRequest_image _ _ _ _ _ hw h4]
+  refine ⟨by simp, ?_⟩
+  have : (3 + 16 * (ctr % 8)) % 16 = 3 := by omega
+  simp [this]
+
+/-- `sdo_read` while the device has an emergency message pending: `MailboxError::Emergency` with its code and register. -/
+theorem sdoRead_server_emergency (srv : Server) (cfg : Cfg) (fuel bufLen index ctr code reg : Nat) (access : SubIndex)
+    (data : List Nat) (es : List (Nat × Nat × List Nat)) (stale : List (List Nat)) (hm : cfg.hasMailbox = true)
+    (hst : stale.length ≤ 10) (h16 : 16 ≤ cfg.rmbx) (hw : 12 ≤ cfg.wmbx) (hc : code < 65536) (hreg : reg < 256)
+    (he : srv.emergencies = (code, reg, data) :: es) :
+    (sdoRead serverWorld cfg fuel bufLen index access (St.init ctr srv stale)).1 = .err (.emergency code reg) := by
+  obtain ⟨hl, hreq⟩ := upload_request_wellformed cfg.wmbx ctr index access hw
+  obtain ⟨d', rest, hs⟩ := serve_emergency_head srv _ code reg data es hl hreq he
+  have hq : (St.init ctr srv stale).outq.length ≤ DRAIN_ROUNDS := hst
+  have hs' : serverWorld.respond (St.init ctr srv stale).dev
+      (image cfg.wmbx (uploadRequest (St.init ctr srv stale).ctr index access)) = (d', _ :: rest) := hs
+  unfold sdoRead
+  dsimp only [mailboxCounter]
+  rw [mwr_head serverWorld cfg _ _ _
+    { ctr := nextCounter (St.init ctr srv stale).ctr, dev := (St.init ctr srv stale).dev, outq := (St.init ctr srv stale).outq,
+      reqs := (St.init ctr srv stale).reqs, reads := (St.init ctr srv stale).reads } d' _ rest hm hq hs',
+    triage_emergency cfg _ _ _ code reg data h16 hc hreg]
+
+/-- The same for `sdo_write`. -/
+theorem sdoWrite_server_emergency (srv : Server) (cfg : Cfg) (index ctr code reg : Nat) (access : SubIndex)
+    (value data : List Nat) (es : List (Nat × Nat × List Nat)) (stale : List (List Nat)) (hm : cfg.hasMailbox = true)
+    (hst : stale.length ≤ 10) (h16 : 16 ≤ cfg.rmbx) (hw : 16 ≤ cfg.wmbx) (h4 : value.length ≤ 4) (hc : code < 65536)
+    (hreg : reg < 256) (he : srv.emergencies = (code, reg, data) :: es) :
+    (sdoWrite serverWorld cfg index access value (St.init ctr srv stale)).1 = .err (.emergency code reg) := by
+  obtain ⟨hl, hreq⟩ := download_request_wellformed cfg.wmbx ctr index access value hw h4
+  obtain ⟨d', rest, hs⟩ := serve_emergency_head srv _ code reg data es hl hreq he
+  have hq : (St.init ctr srv stale).outq.length ≤ DRAIN_ROUNDS := hst
+  have hs' : serverWorld.respond (St.init ctr srv stale).dev (image cfg.wmbx
+      (downloadRequest (St.init ctr srv stale).ctr index access (value ++ zeros (4 - value.length)) value.length)) =
+      (d', _ :: rest) := hs
+  unfold sdoWrite
+  dsimp only [mailboxCounter]
+  rw [if_neg (by simp [WRITE_MAX]; omega)]
+  rw [mwr_head serverWorld cfg _ _ _
+    { ctr := nextCounter (St.init ctr srv stale).ctr, dev := (St.init ctr srv stale).dev, outq := (St.init ctr srv stale).outq,
+      reqs := (St.init ctr srv stale).reqs, reads := (St.init ctr srv stale).reads } d' _ rest hm hq hs',
+    triage_emergency cfg _ _ _ code reg data h16 hc hreg]
+
 end Ec.Coe
